@@ -387,7 +387,11 @@ def run(ctx, spec):
     rng = ctx.rng
     for i in range(spec['n']):
         k = rng.choice([1, 2, 3])
-        st = streams.build(rng, cands, k=k, n_each=(15, 70), tagged=(k > 1 or rng.random() < 0.3), opts={'thresh': 0.1})
+        topts = {'thresh': 0.1, 'titles': rng.choice([0.02, 0.1])}
+        if rng.random() < 0.3:
+            # long window titles / app ids: they end up in the connection's description (`connection` listing)
+            topts.update({'titles': 0.3, 'app_pool': ['a' * 64, 'A rather long window title that goes on and on (draft 2) - Text Editor', 'org.example.' + 'Sub' * 25, 'x' * 200, 'short']})
+        st = streams.build(rng, cands, k=k, n_each=(15, 70), tagged=(k > 1 or rng.random() < 0.3), opts=topts)
         lines = [e['line'] for e in st['entries']]
         # chatter
         for _ in range(rng.randint(0, 5)):
